@@ -78,6 +78,11 @@ def run(ctx):
         scen.append({"main": rnd.choice(faults), "personal": rnd.choice(faults), "backup": rnd.choice(["", "ok", "malformed"]),
                      "maxatt": rnd.randint(-2, 5), "base": rnd.choice([0, 1, 137, 1000, 2500]),
                      "factor": rnd.choice([1.0, 1.5, 2.0, 10.0]), "cap": rnd.choice([0, 1, 500, 1000, 4000])})
+    # long retry runs with tiny caps: the exponential must saturate at the cap, never overflow
+    for _ in range(12 if q else 80):
+        scen.append({"main": rnd.choice(["malformed", "isdir", "ok"]), "personal": rnd.choice(["malformed", "isdir"]),
+                     "backup": "", "maxatt": rnd.choice([15, 40, 70, 130]), "base": rnd.choice([0, 1, 100]),
+                     "factor": rnd.choice([2.0, 10.0, 1000.0]), "cap": rnd.choice([0, 1, 30])})
     sf = os.path.join(ctx.work, "loader-scenarios.jsonl")
     with open(sf, "w") as f:
         for s in scen:
